@@ -383,6 +383,71 @@ func runAliasCluster(sc *aliasScenario) (res aliasResult) {
 					return
 				}
 				ob = addHandle(g, op[3].(string))
+			case "rrscribble":
+				// ReadRepair: the owner holds the value, the backup owners a lagging (older) copy. An embedded Get on the owner
+				// returns the value and repairs the backups; the caller overwrites the bytes it was handed straight away.
+				// Reported: the backup copies after the repair and what the next reads return.
+				key := hexKey(op[1])
+				val := unhex(op[2])
+				if err := vc.put("own", key, val); err != nil {
+					ob = []interface{}{"rr", "put:" + cliCode(err)}
+					return
+				}
+				ki := cl.KeyInfo(name, key)
+				pc := cl.Members[ki.Owner].DB.VerifDMap().VerifCopy(partitions.PRIMARY, name, ki.HKey)
+				if !pc.Found || len(ki.Backups) == 0 {
+					ob = []interface{}{"rr", "skip"}
+					return
+				}
+				for _, b := range ki.Backups {
+					if b >= 0 && cl.Members[b].Alive {
+						_ = cl.Members[b].DB.VerifDMap().VerifPutCopy(partitions.BACKUP, name, key, []byte("lagging-copy"), 0, pc.Timestamp-1000000)
+					}
+				}
+				g, err := vc.get("own", key)
+				if err != nil {
+					ob = []interface{}{"rr", "get:" + cliCode(err)}
+					return
+				}
+				got, _ := g.Byte()
+				first := hex.EncodeToString(got)
+				for i := range got {
+					got[i] = 'X'
+				}
+				// wait until the backup copies carry the winner's timestamp (the repair may run in the background)
+				var baks []interface{}
+				deadline := time.Now().Add(3 * time.Second)
+				for {
+					baks = baks[:0]
+					settled := true
+					for _, b := range ki.Backups {
+						if b >= 0 && cl.Members[b].Alive {
+							c := cl.Members[b].DB.VerifDMap().VerifCopy(partitions.BACKUP, name, ki.HKey)
+							if !c.Found || c.Timestamp != pc.Timestamp {
+								settled = false
+							}
+							baks = append(baks, hex.EncodeToString(c.Value))
+						}
+					}
+					if settled || time.Now().After(deadline) {
+						if !settled {
+							baks = append(baks, "notrepaired")
+						}
+						break
+					}
+					time.Sleep(5 * time.Millisecond)
+				}
+				var later []interface{}
+				for _, path := range []string{"own", "cc", "non"} {
+					g2, err := vc.get(path, key)
+					if err != nil {
+						later = append(later, "err:"+cliCode(err))
+						continue
+					}
+					b2, _ := g2.Byte()
+					later = append(later, hex.EncodeToString(b2))
+				}
+				ob = []interface{}{"rr", "ok", first, baks, later}
 			case "getput":
 				key := hexKey(op[2])
 				dm, err := vc.pick(op[1].(string), key)
